@@ -1210,6 +1210,18 @@ func (p *pinner) Update(ctx context.Context, from, to cid.Cid, unpin bool) error
 		return err
 	}
 
+	// A recursive pin supersedes a direct pin of the same CID (as in Pin).
+	// Removed after the new pin is written, so `to` is never unpinned.
+	toDirect, err := p.cidDIndex.HasAny(ctx, to.KeyString())
+	if err != nil {
+		return err
+	}
+	if toDirect {
+		if _, err = p.removePinsForCid(ctx, to, ipfspinner.Direct); err != nil {
+			return err
+		}
+	}
+
 	if unpin {
 		_, err = p.removePinsForCid(ctx, from, ipfspinner.Recursive)
 		if err != nil {
